@@ -1,4 +1,5 @@
 import BS.Properties.C05
+import BS.Properties.C05e
 #print axioms BS.Part.part_lt
 #print axioms BS.Part.f64_zero_sign_irrelevant
 #print axioms BS.Part.mem_split_iff
@@ -6,3 +7,6 @@ import BS.Properties.C05
 #print axioms BS.Part.shuffle_partitions_perm
 #print axioms BS.Part.aggregate_unique_keys
 #print axioms BS.Part.hash_position_independent
+#print axioms BS.Exec.sem_reshuffle_colocated
+#print axioms BS.Exec.sem_reduce_colocated
+#print axioms BS.Exec.exec_keyed_colocated
